@@ -76,6 +76,36 @@ elab "unfold_state_let" : tactic => do
       | none => throwError "not a let variable"
     | _ => throwError "the state is not a variable"
 
+/- `peel_raw lem`: the goal is `P (St.mk X.cfg …)` (a structure update of `X`, possibly under `Prod.fst/snd` of a
+   pair); apply `lem (s := X)`, whose first hypotheses are equations closed by `rfl`; the last one (`P X`) remains. -/
+open Lean Elab Tactic Meta in
+elab "peel_raw " lem:ident : tactic => do
+  let g ← getMainGoal
+  g.withContext do
+    let t ← instantiateMVars (← g.getType)
+    let mut st := t.appArg!
+    -- `(a, b).fst` / `(a, b).snd`
+    if st.isAppOfArity ``Prod.fst 3 || st.isAppOfArity ``Prod.snd 3 then
+      let pr := st.appArg!
+      if pr.isAppOfArity ``Prod.mk 4 then
+        st := if st.isAppOfArity ``Prod.fst 3 then pr.getArg! 2 else pr.getArg! 3
+    unless st.isAppOf ``St.mk do throwError "peel_raw: not a structure update"
+    let a0 := st.getArg! 0
+    let x ← match a0 with
+      | .app (.const ``St.cfg _) x => pure x
+      | .proj _ 0 x => pure x
+      | _ => throwError "peel_raw: first field is not a projection"
+    let xs ← Term.exprToSyntax x
+    let others := (← getGoals).drop 1
+    evalTactic (← `(tactic| apply $lem (s := $xs)))
+    let all ← getGoals
+    let new := all.take (all.length - others.length)
+    -- every new goal but the last is an equation that must hold by `rfl`
+    for e in new.dropLast do
+      setGoals [e]
+      evalTactic (← `(tactic| exact rfl))
+    setGoals ((new.getLast?.map fun l => [l]).getD [] ++ others)
+
 /-- the induction hypothesis of `exec_induct` for an invariant: every call the body makes preserves it -/
 @[reducible] def GoInv (I : St → Prop) (go : Call → St → St × Ret) : Prop := ∀ c s, I s → I (go c s).1
 
